@@ -98,3 +98,27 @@ def truthiness_tests(fnode, names):
             elif isinstance(e, ast.Name) and e.id in names:
                 out.append((node, e.id))
     return out
+
+
+def presence_rule(res, rule, funcs, names, what):
+    """No function in ``funcs`` decides the presence of a value by its
+    truthiness; returns the number of identity tests seen (for floors)."""
+    n_id = 0
+    for f in funcs:
+        for node, nm in truthiness_tests(f.node, names):
+            where = '%s:%d' % (f.module.relpath, node.lineno)
+            res.ob(rule, where, '%s tests the truthiness of %s' % (
+                f.qualname, nm), 'VIOLATED')
+            res.finding(rule, '%s|truthiness|%s' % (f.qualname, nm), where,
+                        '%s decides presence by the truthiness of %s: %s' % (
+                            f.qualname, nm, what))
+        for node in walk_no_defs(f.node):
+            if isinstance(node, ast.Compare) and isinstance(
+                    node.left, ast.Name) and node.left.id in names and \
+                    isinstance(node.ops[0], (ast.Is, ast.IsNot)) and \
+                    isinstance(node.comparators[0], ast.Constant) and \
+                    node.comparators[0].value is None:
+                n_id += 1
+                res.ob(rule, '%s:%d' % (f.module.relpath, node.lineno),
+                       '%s: %s' % (f.qualname, unparse(node)), 'ok')
+    return n_id
